@@ -483,6 +483,16 @@ def replay_stage(progs, small, work, tier, seed):
                 recs += replay.replay([p], pl)
     for r in recs:
         r["verdict"] = replay.judge(r)
+        # a run whose heartbeat time-out fired although a process could still move (machine load) is not judged (same rule as for recorded runs)
+        r["premature"] = bool(r["events"]) and premature_quiescence(r["events"], r["mode"])
+    # the runs that followed their plan are validated like any recorded run: event by event they must be the behaviour the plan came from
+    followed = [{"id": r["id"], "prog": r["prog"], "mode": r["mode"], "events": r["events"], "crash": r["crash"], "late": r["late"]}
+                for r in recs if r["verdict"] == "agree" and r["events"]]
+    vp_ = validate_traces(progs, followed, work, max_events=1500)
+    vn_ = validate_traces(progs, followed, work, max_events=1500, np=True)
+    out["validated"] = {"traces": vp_["traces"] + vn_["traces"], "accepted": vp_["accepted"] + vn_["accepted"],
+                        "rejected": [dict(x, event=None) if False else x for x in (vp_["rejected"] + vn_["rejected"])][:10]}
+    for r in recs:
         r["events"] = None
     out["records"] = recs
     out["by_verdict"] = dict(collections.Counter(r["verdict"] for r in recs))
